@@ -117,6 +117,45 @@ CHECKS = {
             'partial: that a reached routine passes the supplied values and returns the result is observed (trace), not proved; '
             'the MATLAB side (classdef constructor protocol, delete order) is simulated from the generated .m text.',
             'Coq proof (ownership invariant over histories) + compiled-gateway correspondence', '6 C11'),
+    'C01': ('proof', 'The grammar of gtwrap.interface_parser is regenerated on every run from the LIVE pyparsing objects as a deep '
+            'Gallina term (gen/Grammar.v) and interpreted by Parse/Peg.v (And, Or = longest with first on ties, MatchFirst, Optional, '
+            'ZeroOrMore, Suppress, results names, filler skipping, Keyword look-around, the DEFAULT_ARG scanner, tab expansion); '
+            'Parse/Build.v mirrors the node constructors incl. their validation. Obligations (Props/C01.v): the regenerated term IS '
+            'the hand-written grammar the theorems are about; fingerprints of DEFAULT_ARG and the comment expression unchanged. '
+            'Theorems used: covering (C07) and layout (C12) theorems over this interpreter. Decided per input: (a) implementation '
+            'tree = the declarations the generator rendered (kinds, names, nesting, types to any depth, template lists, default text, '
+            'bases, flags), (b) model tree = implementation tree, in five layout styles; recorded findings by witness.',
+            'partial: no print/parse round-trip THEOREM over all trees yet (the mirror property itself is decided by the generator-based '
+            'comparison and the model tie, both sampling); pyparsing semantics is modelled, tied by correspondence.',
+            'Coq model regenerated from live grammar objects (translator) + tie obligations + model/implementation correspondence', '6 C01'),
+    'C07': ('proof', 'Theorems (Props/C07.v) for EVERY grammar over pyparsing\'s terminals: whatever the interpreter matches, the text '
+            'consumed is exactly an interleaving of filler and of the texts matched by terminals in order, and the leaves of the match '
+            'tree are the terminal texts not under Suppress (no character is stepped over otherwise); Module.parseString accepts only '
+            'when this covering reaches the end of the text. Tie: grammar regenerated from live objects + obligation. Decided per '
+            'input: token-level corruptions (delete/duplicate/swap/truncate/stray/drop-range) in all layouts - implementation verdict '
+            'class, termination, bag-of-characters accounting of accepted trees, model verdict and tree; failing runs of both scripts '
+            'and generators (incl. submodule mode, default-before-non-default) exit non-zero and leave the output directory untouched.',
+            'partial: file-system effects and exit codes are observed, not modelled; accounting of the AST (not the match tree) is checked, not proved.',
+            'Coq proof (covering invariant of the interpreter) + corruption correspondence + file-system experiments', '6 C07'),
+    'C12': ('proof', 'Theorem (Props/C12.v, Parse/Layout.v) for EVERY grammar over pyparsing\'s terminals and so for the regenerated one: '
+            'two texts with the same skeleton (same characters outside white space and comments, filler runs of any content and length '
+            '>= 1 at the same places) get the same verdict and the same tree from the real interpreter, provided the parse never reaches '
+            'a default value, an #include path or a two-word keyword split by filler (decidable side condition strict_parse); proved by a '
+            'simulation over filler-robust terminals, a position-chain argument for Or\'s longest-match comparison, fuel monotonicity. '
+            'Full statement refuted three ways by computation (recorded findings). Decided per input: 6-8 renderings of one token list '
+            '(incl. comments holding braces/quotes/keywords) - implementation trees, pybind and MATLAB bytes, model trees.',
+            'partial: creating or removing a gap between two tokens (e.g. `f(int` vs `f ( int`) is outside the theorem (skeletons differ) and '
+            'covered by the renderings only; texts with defaults/#include are outside the theorem.',
+            'Coq proof (layout simulation for the grammar interpreter) + re-layout correspondence', '6 C12'),
+    'C19': ('proof', 'Theorem (Props/C19.v, Cost/Memo.v): a memoising evaluator computes pairwise distinct keys of the key space, hence at '
+            'most 4 * nodes * (n + 1) evaluations for a text of length n - independent of nesting depth; obligation from the translator: '
+            'packrat is enabled at import. Decided by measurement in fresh processes (ParserElement._parseNoCache wrapped by a counter): '
+            '11 families scaled in namespace depth (incl. commented headers), template-argument depth, declarations, argument lists; '
+            'distinct keys within the proved key-space bound; evaluation count ratio <= 6 per doubling; memoisation still on for the '
+            '2nd/3rd file of a process; CPU limits.',
+            'partial: pyparsing\'s table is a 128-entry FIFO, so keys are recomputed after eviction (measured growth is quadratic in depth, '
+            'not linear); CPU time is outside any model. The theorem is the idealised bound, the polynomial claim for the real table is measured.',
+            'Coq proof (idealised packrat bound) + evaluation-count measurements', '6 C19'),
     'C13': ('proof', 'Theorems (Props/C13.v): an instantiation is a function of its own argument tuple only (lists are '
             'never read), pointwise image of the product; alpha-invariance on the C02 domain via the substitution spec; '
             'refuted in general by the substring rewrite (recorded). Tie: metamorphic experiments on the implementation '
